@@ -19,3 +19,15 @@ Definition sums_channels (h h' : Hdr) (factor : Z) : Prop :=
   forall j, Qbetween (label h (j * factor)) (label h (j * factor + factor - 1)) (label h' j).
 (** a single output channel formed from ALL input channels *)
 Definition within_band (h h' : Hdr) : Prop := Qbetween (label h 0) (label h (h_nchans h - 1)) (label h' 0).
+
+(** a set of two files read as one stream (Header.from_sigproc on a list of files): the header of the FIRST file with the
+    sample counts added; [contiguous]: the second file starts where the first one ends, at the same sampling interval
+    (what check_contiguity demands).  Hand model, tied by the correspondence run on real file sets. *)
+Definition fileset (h1 h2 : Hdr) : Hdr :=
+  mkHdr (h_nchans h1) (h_nbits h1) (h_nsamples h1 + h_nsamples h2) (h_fch1 h1) (h_foff h1) (h_tsamp h1) (h_tstart h1) (h_dm h1) (h_dtype h1).
+Definition contiguous (h1 h2 : Hdr) : Prop :=
+  (h_tstart h2 == h_tstart h1 + inject_Z (h_nsamples h1) * h_tsamp h1 / 86400)%Q /\ (h_tsamp h2 == h_tsamp h1)%Q.
+(** every field this property speaks about is the input's (a product that neither dedisperses nor changes the axes) *)
+Definition same_header (h h' : Hdr) : Prop :=
+  h_nchans h' = h_nchans h /\ h_nbits h' = h_nbits h /\ h_nsamples h' = h_nsamples h /\ (h_fch1 h' == h_fch1 h)%Q /\ (h_foff h' == h_foff h)%Q /\
+  (h_tsamp h' == h_tsamp h)%Q /\ (h_tstart h' == h_tstart h)%Q /\ (h_dm h' == h_dm h)%Q /\ h_dtype h' = h_dtype h.
